@@ -234,6 +234,52 @@ theorem fieldTy_of {c : Ctx} {fid : Nat} {sf : StoredField} (hsf : c.s.fields[fi
     fieldTy c fid = sf.ty.id := by
   simp [fieldTy, hsf]
 
+/-- a response object of a lone spread of a fragment on the abstract type itself is one of the fragment's body -/
+theorem conformsAt_lone (ty : TypeId) (g : Nat) (fr : RFragment) (hfr : c.q.fragments[g]? = some fr) (hon : fr.on = ty)
+    (j : Json) (hc : conformsAt c.s ty (expandSels c.q [Sel.spread g]) j = true) : conformsAt c.s ty fr.sels j = true := by
+  simp only [conformsAt, List.any_eq_true, List.mem_range, Bool.and_eq_true] at hc ⊢
+  obtain ⟨rt, hrt, happ, hc⟩ := hc
+  refine ⟨rt, hrt, happ, ?_⟩
+  cases j with
+  | obj kvs =>
+    simpa only [expandSels, expandSel, hfr, conformsV, keysSelsV, keysSelV, hon, happ, ↓reduceIte, List.append_nil,
+      confSelsV, confSelV, Bool.not_true, Bool.false_or, Bool.and_true] using hc
+  | null => simp [conformsV] at hc
+  | bool _ => simp [conformsV] at hc
+  | int _ => simp [conformsV] at hc
+  | num _ => simp [conformsV] at hc
+  | str _ => simp [conformsV] at hc
+  | arr _ => simp [conformsV] at hc
+
+/-- round trip through the type alias of a lone spread of a fragment on the abstract type itself -/
+theorem rtAliasB (name : String) (ty : TypeId) (g : Nat) (fr : RFragment) (hfr : c.q.fragments[g]? = some fr)
+    (hty : absHyp c.s ty) (hok : fragOkB c.s c.q c.o ty g = true)
+    (ha : AliasEnv e name (fragName c g)) (hf : FragEnvS e c g) (hro : rustOkFragB c g = true) (b : Bool) (fd fs : Nat)
+    (hfd : 2 * selsDepth fr.sels + 4 ≤ fd) (hfs : 2 * selsDepth fr.sels + 4 ≤ fs) (j : Json) (w : Val)
+    (hc : conformsAt c.s ty (expandSels c.q [Sel.spread g]) j = true) (hd : dePath e b fd name j = .ok w) :
+    serPath e fs name w = .ok (canonAbsV c.s c.o.skipNone fr.sels j) := by
+  obtain ⟨fr', hfr', hon, _, hv, hokf⟩ := fragOkB_parts hok
+  rw [hfr] at hfr'; cases hfr'
+  obtain ⟨hp, _, n, pub, hfind⟩ := ha
+  unfold FragEnvS at hf
+  rw [hfr] at hf
+  have hisabs : fr.on.isAbstract = true := by
+    rw [hon]; cases ty <;> simp_all [absHyp, TypeId.isAbstract]
+  rw [hon] at hisabs
+  simp only [hon, hisabs, ↓reduceIte] at hf
+  have hsels : fragSels c.q g = fr.sels := by simp [fragSels, hfr]
+  have hname : fragName c g = fr.name := by simp [fragName, hfr]
+  simp only [rustOkFragB, hsels, Bool.and_eq_true] at hro
+  rw [hname] at hfind
+  obtain ⟨fd', rfl⟩ : ∃ k, fd = k + 1 := ⟨fd - 1, by omega⟩
+  obtain ⟨fs', rfl⟩ : ∃ k, fs = k + 2 := ⟨fs - 2, by omega⟩
+  have hd' : dePath e b fd' fr.name j = .ok w := by
+    rw [dePath] at hd; simpa only [dePrim_none hp, hfind, deTyWith] using hd
+  rw [serPath_alias e name fr.name n pub hfind]
+  exact rtAbsV e c (c.cs.camel fr.name) fr.name ty fr.sels
+    (fun x hx => (rtSelsV e c fr.sels _ x hx).1) (fun x hx => (rtSelsV e c fr.sels _ x hx).2) hty hv hokf hf.2 hro.2 hro.1
+    hf.1 b fd' (fs' + 1) (by omega) (by omega) j w (conformsAt_lone c ty g fr hfr hon j hc) hd'
+
 mutual
   theorem rtSelD : ∀ (x : Sel) (pfx : String), RTSelD e c pfx x
     | .field a fid sub, pfx => by
@@ -315,38 +361,72 @@ mutual
           simp only [hid, Bool.and_eq_true] at hty henv hst ⊢
           simp only [fieldOfSelV, hsf, leafNameV, hid, Option.some.injEq] at hf
           subst hf
-          obtain ⟨hs, hve, hesub⟩ := henv
-          have hID : pfx ++ c.cs.camel (a.getD sf.name) ≠ "ID" := by
-            unfold AbsEnv at hs; split at hs
-            · exact hs.2.1
-            · exact hs.1.2.1
-          rw [deField_plain _ _ _ _ hID] at hd
-          rw [canonLambdaAbsD]
-          simp only [hid, TypeId.isAbstract, ↓reduceIte, List.all_eq_true] at hro
-          refine (leaf_roundtrip_on (dePath e b (fd' + 3)) (serPath e (fs' + 1)) _
-            (conformsAt c.s (.interface k) (expandSels c.q sub)) (canonAbsD c.s c.q c.o.skipNone (.interface k) sub) ?_ _ hwf).2 v y hst hd
-          intro j w hc hdw
-          exact rtAbsD e c _ _ (.interface k) sub (fun x hx => IH _ x hx) (fun t isub hm x hx => IHI t isub hm _ x hx)
-            hty.1.1 hty.1.2 hty.2 hesub hve hro.1.2 hro.1.1 (fun vt hvt => nodup_iff'.mp (hro.2 vt hvt)) hs b _ _
-            (by omega) (by omega) j w hc hdw
+          rcases absOkL_cases hty.2 with ⟨hok, hlg⟩ | ⟨g, rfl, hokB⟩
+          · simp only [hlg] at henv ⊢
+            obtain ⟨hs, hve, hesub⟩ := henv
+            have hID : pfx ++ c.cs.camel (a.getD sf.name) ≠ "ID" := by
+              unfold AbsEnv at hs; split at hs
+              · exact hs.2.1
+              · exact hs.1.2.1
+            rw [deField_plain _ _ _ _ hID] at hd
+            rw [canonLambdaAbsD]
+            simp only [hid, TypeId.isAbstract, ↓reduceIte, List.all_eq_true] at hro
+            refine (leaf_roundtrip_on (dePath e b (fd' + 3)) (serPath e (fs' + 1)) _
+              (conformsAt c.s (.interface k) (expandSels c.q sub)) (canonAbsD c.s c.q c.o.skipNone (.interface k) sub) ?_ _ hwf).2 v y hst hd
+            intro j w hc hdw
+            exact rtAbsD e c _ _ (.interface k) sub (fun x hx => IH _ x hx) (fun t isub hm x hx => IHI t isub hm _ x hx)
+              hty.1.1 hty.1.2 hok hesub hve hro.1.2 hro.1.1 (fun vt hvt => nodup_iff'.mp (hro.2 vt hvt)) hs b _ _
+              (by omega) (by omega) j w hc hdw
+          · -- a lone spread of a fragment on the abstract type itself: through the type alias
+            simp only [loneG_lone] at henv ⊢
+            obtain ⟨fr, hfr, hon, _⟩ := fragOkB_parts hokB
+            simp only [hfr]
+            rw [deField_plain _ _ _ _ henv.1.2.1] at hd
+            have hdep : depthsF c.q [Sel.spread g] = selsDepth fr.sels + 1 := by simp [depthsF, depthF, fragSels, hfr]
+            rw [hdep] at hfd hfs
+            have hisabs : fr.on.isAbstract = true := by rw [hon]; rfl
+            have hrog : rustOkFragB c g = true := by
+              have := hro.1.2
+              simpa [rustOkSelsD, rustOkSelD, hfr, hisabs] using this
+            refine (leaf_roundtrip_on (dePath e b (fd' + 3)) (serPath e (fs' + 1)) _
+              (conformsAt c.s (.interface k) (expandSels c.q [Sel.spread g])) (canonAbsV c.s c.o.skipNone fr.sels) ?_ _ hwf).2 v y hst hd
+            intro j w hc hdw
+            exact rtAliasB e c _ (.interface k) g fr hfr hty.1.1 hokB henv.1 henv.2 hrog b _ _ (by omega) (by omega) j w hc hdw
         | union k =>
           simp only [hid, Bool.and_eq_true] at hty henv hst ⊢
           simp only [fieldOfSelV, hsf, leafNameV, hid, Option.some.injEq] at hf
           subst hf
-          obtain ⟨hs, hve, hesub⟩ := henv
-          have hID : pfx ++ c.cs.camel (a.getD sf.name) ≠ "ID" := by
-            unfold AbsEnv at hs; split at hs
-            · exact hs.2.1
-            · exact hs.1.2.1
-          rw [deField_plain _ _ _ _ hID] at hd
-          rw [canonLambdaAbsD]
-          simp only [hid, TypeId.isAbstract, ↓reduceIte, List.all_eq_true] at hro
-          refine (leaf_roundtrip_on (dePath e b (fd' + 3)) (serPath e (fs' + 1)) _
-            (conformsAt c.s (.union k) (expandSels c.q sub)) (canonAbsD c.s c.q c.o.skipNone (.union k) sub) ?_ _ hwf).2 v y hst hd
-          intro j w hc hdw
-          exact rtAbsD e c _ _ (.union k) sub (fun x hx => IH _ x hx) (fun t isub hm x hx => IHI t isub hm _ x hx)
-            hty.1.1 hty.1.2 hty.2 hesub hve hro.1.2 hro.1.1 (fun vt hvt => nodup_iff'.mp (hro.2 vt hvt)) hs b _ _
-            (by omega) (by omega) j w hc hdw
+          rcases absOkL_cases hty.2 with ⟨hok, hlg⟩ | ⟨g, rfl, hokB⟩
+          · simp only [hlg] at henv ⊢
+            obtain ⟨hs, hve, hesub⟩ := henv
+            have hID : pfx ++ c.cs.camel (a.getD sf.name) ≠ "ID" := by
+              unfold AbsEnv at hs; split at hs
+              · exact hs.2.1
+              · exact hs.1.2.1
+            rw [deField_plain _ _ _ _ hID] at hd
+            rw [canonLambdaAbsD]
+            simp only [hid, TypeId.isAbstract, ↓reduceIte, List.all_eq_true] at hro
+            refine (leaf_roundtrip_on (dePath e b (fd' + 3)) (serPath e (fs' + 1)) _
+              (conformsAt c.s (.union k) (expandSels c.q sub)) (canonAbsD c.s c.q c.o.skipNone (.union k) sub) ?_ _ hwf).2 v y hst hd
+            intro j w hc hdw
+            exact rtAbsD e c _ _ (.union k) sub (fun x hx => IH _ x hx) (fun t isub hm x hx => IHI t isub hm _ x hx)
+              hty.1.1 hty.1.2 hok hesub hve hro.1.2 hro.1.1 (fun vt hvt => nodup_iff'.mp (hro.2 vt hvt)) hs b _ _
+              (by omega) (by omega) j w hc hdw
+          · -- a lone spread of a fragment on the abstract type itself: through the type alias
+            simp only [loneG_lone] at henv ⊢
+            obtain ⟨fr, hfr, hon, _⟩ := fragOkB_parts hokB
+            simp only [hfr]
+            rw [deField_plain _ _ _ _ henv.1.2.1] at hd
+            have hdep : depthsF c.q [Sel.spread g] = selsDepth fr.sels + 1 := by simp [depthsF, depthF, fragSels, hfr]
+            rw [hdep] at hfd hfs
+            have hisabs : fr.on.isAbstract = true := by rw [hon]; rfl
+            have hrog : rustOkFragB c g = true := by
+              have := hro.1.2
+              simpa [rustOkSelsD, rustOkSelD, hfr, hisabs] using this
+            refine (leaf_roundtrip_on (dePath e b (fd' + 3)) (serPath e (fs' + 1)) _
+              (conformsAt c.s (.union k) (expandSels c.q [Sel.spread g])) (canonAbsV c.s c.o.skipNone fr.sels) ?_ _ hwf).2 v y hst hd
+            intro j w hc hdw
+            exact rtAliasB e c _ (.union k) g fr hfr hty.1.1 hokB henv.1 henv.2 hrog b _ _ (by omega) (by omega) j w hc hdw
         | input k => simp [hid] at hty
     | .spread g, pfx => by intro _ _ _ _ f hf; cases hf
     | .inline t isub, pfx => by intro _ _ _ _ f hf; cases hf
@@ -465,7 +545,7 @@ theorem bs_canonD :
     normJson (canonSelD vxSchema (bsQuery bsSels) false (wsOp bsSels).sels bsJsonH) =
       .obj [("hero", .obj [("name", .str "x"), ("__typename", .str "Human"), ("height", .num "1.8"),
                            ("h2", .num "1.8"), ("buddy", .null)])] := by
-  simp [canonSelD, canonEntriesD, canonFieldD, canonEntriesBD, canonVarD, onNamed, absEntries, absRest, hasStruct,
+  simp [canonSelD, canonEntriesD, canonFieldD, loneG, canonEntriesBD, canonVarD, onNamed, absEntries, absRest, hasStruct,
     isBSpread, isFieldSel, canonAbsV, canonEntriesV, canonFieldV, canonInlV, tagName, wsOp, bsQuery, bsSels, bsJsonH,
     vxSchema, objName, rtName, fieldKeys, fieldKey, Json.lookup, canon, canonNN, gtyOf, Json.isNull, skipQ,
     normJson, normKvs, normList, Json.normObj, Json.insert]
@@ -491,7 +571,7 @@ theorem ws_canonD :
     normJson (canonSelD vxSchema (wsQuery wsSels) false (wsOp wsSels).sels wsJsonH) =
       .obj [("hero", .obj [("name", .str "x"), ("__typename", .str "Human"), ("h2", .num "1.8"), ("height", .num "1.8"),
                            ("buddy", .obj [("__typename", .str "Droid")])])] := by
-  simp [canonSelD, canonEntriesD, canonFieldD, canonEntriesBD, canonVarD, onNamed, absEntries, absRest, hasStruct,
+  simp [canonSelD, canonEntriesD, canonFieldD, loneG, canonEntriesBD, canonVarD, onNamed, absEntries, absRest, hasStruct,
     isBSpread, isFieldSel, canonAbsV, canonEntriesV, canonFieldV, canonInlV, tagName, wsOp, wsQuery, wsSels, wsJsonH,
     vxSchema, objName, rtName, fieldKeys, fieldKey, Json.lookup, canon, canonNN, gtyOf, Json.isNull, skipQ,
     normJson, normKvs, normList, Json.normObj, Json.insert]
@@ -534,6 +614,81 @@ theorem variantspread_b_rust_names_needed :
   refine ⟨by decide +kernel, by decide +kernel, ?_, by decide +kernel⟩
   simp only [onSels, wsJsonN]
   simp [conformsOpS, onCtx, wsOp, onQuery, expandSels, expandSel, conformsV, confSelsV, confSelV, keysSelsV, keysSelV,
+    fragApplies, rtName, vxSchema, Json.lookup, accepts, acceptsNN, gtyOf, scalarOk, floatOk, stringOk,
+    Json.isNull, EnumSpec.nodup, List.range, List.range.loop, conformsAt]
+
+/-! ## "no field key has two readers" (fourth part of `absOkS`) is needed
+
+The emitted types do not merge fields (known finding `C01-overlap`), and neither does the specification `conformsOpS`: a
+key selected twice with different sub-selections is read by the first reader only, whose type drops what the other
+sub-selection asked for. -/
+
+/-- `fragment CI on Character { __typename ... on Human { buddy { __typename } } }`,
+    `fragment CJ on Character { __typename ... on Human { buddy { __typename ... on Droid { primaryFunction } } } }` -/
+def mgQuery (sels : List Sel) : Query :=
+  { operations := [{ name := "Q", kind := .query, objectId := 0, sels := [.field none 0 sels] }]
+    fragments := [{ name := "CI", on := .interface 0,
+                    sels := [.typename, .inline (.object 1) [.field none 5 [.typename]]] },
+                  { name := "CJ", on := .interface 0,
+                    sels := [.typename, .inline (.object 1) [.field none 5 [.typename,
+                      .inline (.object 2) [.field none 3 []]]]] }] }
+
+def mgCtx (sels : List Sel) : Ctx := { s := vxSchema, q := mgQuery sels, o := {}, cs := ⟨id, id⟩ }
+
+/-- `hero { __typename ...CJ ...CI }` -/
+def mgSels : List Sel := [.typename, .spread 1, .spread 0]
+
+/-- `hero { __typename ...CJ ... on Human { buddy { __typename } } }` -/
+def mgSelsI : List Sel := [.typename, .spread 1, .inline (.object 1) [.field none 5 [.typename]]]
+
+/-- what a GraphQL server returns for a `Human` hero with a `Droid` buddy (the two selections of `buddy` merged) -/
+def mgJson : Json :=
+  .obj [("hero", .obj [("__typename", .str "Human"),
+    ("buddy", .obj [("__typename", .str "Droid"), ("primaryFunction", .str "beep")])])]
+
+/-- **two fragments on the abstract type itself that select the same key** (`buddy`, with different sub-selections): the
+    class excludes the operation — only by its fourth condition (for `Human` the key `buddy` has two readers); the module
+    is generated, `moduleOk`, `spreadRustOkD`; the server's (merged) payload is not even described by the specification
+    without field merging; and the emitted types **lose data**: `primaryFunction` is gone after the round trip (both members
+    read `buddy`, each with its own type; both write it, and `serde_json::to_value` keeps the last value — that of `CI`.
+    With the spreads in the order `...CI ...CJ` the value of `CJ` is kept) -/
+theorem variantspread_b_merge_loses_fields :
+    VariantSpreadOp (mgCtx mgSels) (wsOp mgSels) = false ∧
+    EnumSpec.nodup (bKeys vxSchema (mgQuery mgSels) (.interface 0) (.object 1) mgSels ++
+      varKeys vxSchema (mgQuery mgSels) (.object 1) mgSels) = false ∧
+    isOkO (responseForQuery (mgCtx mgSels) 0) = true ∧
+    moduleOk (mgCtx mgSels) (okOr (responseForQuery (mgCtx mgSels) 0)) = true ∧
+    spreadRustOkD (mgCtx mgSels) (wsOp mgSels) = true ∧
+    conformsOpS (mgCtx mgSels) (wsOp mgSels) mgJson = false ∧
+    (match Serde.roundtrip (moduleEnv (mgCtx mgSels) (okOr (responseForQuery (mgCtx mgSels) 0))) (.path "ResponseData")
+        mgJson with
+     | .ok (.obj [("hero", .obj [("__typename", .str "Human"), ("buddy", .obj [("__typename", .str "Droid")])])]) => true
+     | _ => false) = true := by
+  refine ⟨by decide +kernel, by decide +kernel, by decide +kernel, by decide +kernel, by decide +kernel, ?_,
+    by decide +kernel⟩
+  simp only [mgSels, mgJson]
+  simp [conformsOpS, mgCtx, wsOp, mgQuery, expandSels, expandSel, conformsV, confSelsV, confSelV, keysSelsV, keysSelV,
+    fragApplies, rtName, vxSchema, Json.lookup, accepts, acceptsNN, gtyOf, scalarOk, floatOk, stringOk,
+    Json.isNull, EnumSpec.nodup, List.range, List.range.loop, conformsAt]
+
+/-- **… and a fragment on the abstract type itself and an inline fragment that select the same key**: excluded by the
+    same condition; the variant struct's own field `buddy` (without `primaryFunction`) is written last: the same loss -/
+theorem variantspread_b_inline_merge_loses_fields :
+    VariantSpreadOp (mgCtx mgSelsI) (wsOp mgSelsI) = false ∧
+    EnumSpec.nodup (bKeys vxSchema (mgQuery mgSelsI) (.interface 0) (.object 1) mgSelsI ++
+      varKeys vxSchema (mgQuery mgSelsI) (.object 1) mgSelsI) = false ∧
+    isOkO (responseForQuery (mgCtx mgSelsI) 0) = true ∧
+    moduleOk (mgCtx mgSelsI) (okOr (responseForQuery (mgCtx mgSelsI) 0)) = true ∧
+    spreadRustOkD (mgCtx mgSelsI) (wsOp mgSelsI) = true ∧
+    conformsOpS (mgCtx mgSelsI) (wsOp mgSelsI) mgJson = false ∧
+    (match Serde.roundtrip (moduleEnv (mgCtx mgSelsI) (okOr (responseForQuery (mgCtx mgSelsI) 0))) (.path "ResponseData")
+        mgJson with
+     | .ok (.obj [("hero", .obj [("__typename", .str "Human"), ("buddy", .obj [("__typename", .str "Droid")])])]) => true
+     | _ => false) = true := by
+  refine ⟨by decide +kernel, by decide +kernel, by decide +kernel, by decide +kernel, by decide +kernel, ?_,
+    by decide +kernel⟩
+  simp only [mgSelsI, mgJson]
+  simp [conformsOpS, mgCtx, wsOp, mgQuery, expandSels, expandSel, conformsV, confSelsV, confSelV, keysSelsV, keysSelV,
     fragApplies, rtName, vxSchema, Json.lookup, accepts, acceptsNN, gtyOf, scalarOk, floatOk, stringOk,
     Json.isNull, EnumSpec.nodup, List.range, List.range.loop, conformsAt]
 
@@ -678,13 +833,27 @@ mutual
         | interface k =>
           simp only [hid, Bool.and_eq_true] at hty ⊢
           obtain ⟨hF, hI⟩ := IH true hty.1.2 hnbx.2
+          have hlg : loneG sub = none ∧ absOkS s q o (.interface k) sub = true := by
+            rcases absOkL_cases hty.2 with ⟨hok, hlg⟩ | ⟨g, rfl, hokB⟩
+            · exact ⟨hlg, hok⟩
+            · have := noBAt_lone_false hokB
+              simp [hid, TypeId.isAbstract, this] at hnbx
+          obtain ⟨hlg, hok⟩ := hlg
+          simp only [hlg]
           rw [canonLambdaAbsD, canonLambdaAbsS,
-            canonAbs_noB s q o skip (.interface k) sub hty.1.1 hty.2 (by simpa [hid, TypeId.isAbstract] using hnbx.1) hF hI]
+            canonAbs_noB s q o skip (.interface k) sub hty.1.1 hok (by simpa [hid, TypeId.isAbstract] using hnbx.1) hF hI]
         | union k =>
           simp only [hid, Bool.and_eq_true] at hty ⊢
           obtain ⟨hF, hI⟩ := IH true hty.1.2 hnbx.2
+          have hlg : loneG sub = none ∧ absOkS s q o (.union k) sub = true := by
+            rcases absOkL_cases hty.2 with ⟨hok, hlg⟩ | ⟨g, rfl, hokB⟩
+            · exact ⟨hlg, hok⟩
+            · have := noBAt_lone_false hokB
+              simp [hid, TypeId.isAbstract, this] at hnbx
+          obtain ⟨hlg, hok⟩ := hlg
+          simp only [hlg]
           rw [canonLambdaAbsD, canonLambdaAbsS,
-            canonAbs_noB s q o skip (.union k) sub hty.1.1 hty.2 (by simpa [hid, TypeId.isAbstract] using hnbx.1) hF hI]
+            canonAbs_noB s q o skip (.union k) sub hty.1.1 hok (by simpa [hid, TypeId.isAbstract] using hnbx.1) hF hI]
     | .spread g, _ => by
       intro _ _
       exact ⟨fun v => by simp [canonFieldD, canonFieldS], fun t isub h => by cases h⟩
